@@ -160,6 +160,7 @@ pub fn worker_main<P: Property>(args: &[String]) -> i32 {
     let map_addr = map as usize;
 
     let total = seeded + sweep;
+    let slow_ms: Option<u64> = std::env::var("FUSIM_SLOW_MS").ok().and_then(|v| v.parse().ok());
     let lines = with_ctx::<P, Vec<String>>(scratch_parent, format!("w{k}"), true, move |ctx| {
         let map = map_addr as *mut u64;
         let mut out: Vec<String> = vec![];
@@ -183,7 +184,15 @@ pub fn worker_main<P: Property>(args: &[String]) -> i32 {
             let (seed, sc) = scenario_for::<P>(base, tier, seeded, i);
             let want = samples.len() < want_samples && (i / w) % 97 == 0;
             let mut rep = Report::new(want);
+            let t0 = Instant::now();
             P::check(&sc, ctx, &mut rep);
+            if let Some(ms) = slow_ms {
+                // profiling aid (FUSIM_SLOW_MS): which runs cost how much
+                let el = t0.elapsed().as_millis() as u64;
+                if el >= ms {
+                    ctx.note(&format!("slow run i={i} {el} ms\n"));
+                }
+            }
             runs += 1;
             for (k2, v) in &rep.faults {
                 *faults.entry(k2).or_insert(0) += v;
@@ -792,6 +801,9 @@ fn run_once<P: Property>(sc: P::Sc, sample: bool) -> (Option<Violation>, u64, Op
 
 pub fn replay_main<P: Property>(path: &str, mode: Option<&str>) -> i32 {
     let (v, sc) = load_replay::<P>(path);
+    if v["crosscheck"].as_bool() == Some(true) {
+        return crosscheck_replay::<P>(sc, path);
+    }
     let json_mode = mode == Some("--json");
     let (viol, trace, sample) = run_once::<P>(sc, !json_mode);
     if json_mode {
@@ -881,36 +893,48 @@ pub fn shrink_main<P: Property>(path: &str, out: &str) -> i32 {
 /// Binary cross-check: the first scenarios of the quick tier that are comparable, through the
 /// seams and through the real executables. Exit 0 = all agree, 2 = a disagreement (harness
 /// error by design: real pipes are not under seed control).
-pub fn crosscheck_main<P: Property>(n: u64) -> i32 {
-    use crate::crosscheck::Xc;
+/// The feature-off executables, copied where a worker that dropped its privileges can run them.
+fn prepare_bins(parent: &Path) -> Result<PathBuf, String> {
     let root = verif_root();
     let bins = std::env::var("FUSIM_BINS").map(PathBuf::from).unwrap_or_else(|_| root.join("sim/target/repo-bins/debug"));
     if !bins.join("find").exists() || !bins.join("xargs").exists() {
-        println!("HARNESS-ERROR: no feature-off executables in {} (run ./check --build-bins)", bins.display());
-        return 2;
+        return Err(format!("no feature-off executables in {} (run ./check --build-bins)", bins.display()));
     }
+    let d = parent.join("bins");
+    let _ = fs::create_dir_all(&d);
+    let _ = fs::set_permissions(&d, fs::Permissions::from_mode(0o755));
+    for b in ["find", "xargs"] {
+        let _ = fs::copy(bins.join(b), d.join(b));
+        let _ = fs::set_permissions(d.join(b), fs::Permissions::from_mode(0o755));
+    }
+    Ok(d)
+}
+
+pub fn crosscheck_main<P: Property>(n: u64) -> i32 {
+    use crate::crosscheck::Xc;
+    let root = verif_root();
     let base = base_seed();
     let seeded = seeded_budget::<P>(Tier::Quick);
+    // (read before a context resets the environment)
+    let out_root = std::env::var("FUSIM_OUT").map(PathBuf::from).unwrap_or_else(|_| root.clone());
     let parent = make_scratch_parent();
-    // the worker may drop its privileges: run copies that any uid can reach
-    let bins = {
-        let d = parent.join("bins");
-        let _ = fs::create_dir_all(&d);
-        let _ = fs::set_permissions(&d, fs::Permissions::from_mode(0o755));
-        for b in ["find", "xargs"] {
-            let _ = fs::copy(bins.join(b), d.join(b));
-            let _ = fs::set_permissions(d.join(b), fs::Permissions::from_mode(0o755));
+    let bins = match prepare_bins(&parent) {
+        Ok(b) => b,
+        Err(e) => {
+            println!("HARNESS-ERROR: {e}");
+            sys::wipe(&parent);
+            return 2;
         }
-        d
     };
     let start = Instant::now();
-    let (tried, compared, disagreements) = with_ctx::<P, _>(parent.clone(), "xc".into(), true, move |ctx| {
+    let (tried, compared, disagreements, differences) = with_ctx::<P, _>(parent.clone(), "xc".into(), true, move |ctx| {
         let mut tried = 0u64;
         let mut compared = 0u64;
         let mut dis: Vec<(u64, String)> = vec![];
+        let mut dif: Vec<(u64, u64, String, Value)> = vec![];
         let mut i = 0u64;
         while compared < n && tried < n * 30 && i < seeded {
-            let (_, sc) = scenario_for::<P>(base, Tier::Quick, seeded, i);
+            let (seed, sc) = scenario_for::<P>(base, Tier::Quick, seeded, i);
             tried += 1;
             match P::crosscheck(&sc, ctx, &bins) {
                 Xc::NotComparable => {}
@@ -921,32 +945,53 @@ pub fn crosscheck_main<P: Property>(n: u64) -> i32 {
                         dis.push((i, d));
                     }
                 }
+                Xc::Differs(d) => {
+                    compared += 1;
+                    if dif.len() < 3 {
+                        dif.push((i, seed, d, serde_json::to_value(&sc).unwrap()));
+                    }
+                }
             }
             i += 1;
         }
-        (tried, compared, dis)
+        (tried, compared, dis, dif)
     });
     sys::wipe(&parent);
     let wall = start.elapsed().as_secs_f64();
     println!(
-        "fusim: crosscheck property={} scenarios_tried={} compared_with_executables={} disagreements={} {:.1} s",
+        "fusim: crosscheck property={} scenarios_tried={} compared_with_executables={} disagreements={} differences={} {:.1} s",
         P::ID,
         tried,
         compared,
         disagreements.len(),
+        differences.len(),
         wall
     );
     for (i, d) in &disagreements {
         println!("HARNESS-ERROR: binary cross-check, quick run {i}: {}", d.chars().take(1500).collect::<String>());
     }
+    let class = format!("{}.executable-differs", P::ID);
+    for (i, seed, d, scv) in &differences {
+        let dir = out_root.join("replays");
+        let _ = fs::create_dir_all(&dir);
+        let path = dir.join(format!("{}-executable-differs-{i}.json", P::ID));
+        let v = json!({
+            "property": P::ID, "tier": "quick", "base_seed": base, "run_index": i, "seed": seed,
+            "class": class, "detail": d, "minimised": false, "crosscheck": true,
+            "scenario": scv,
+        });
+        let _ = fs::write(&path, serde_json::to_string_pretty(&v).unwrap());
+        println!("violation class={class} run={i} seed={seed}");
+        println!("  {}", d.chars().take(1500).collect::<String>());
+        println!("VIOLATION property={} replay={}", P::ID, path.display());
+    }
     // record in the evidence file of the last check run, if there is one
-    let out_root = std::env::var("FUSIM_OUT").map(PathBuf::from).unwrap_or_else(|_| root.clone());
     let evp = out_root.join("evidence").join(format!("{}.json", P::ID));
     if let Ok(text) = fs::read_to_string(&evp) {
         if let Ok(mut v) = serde_json::from_str::<Value>(&text) {
             v["coverage"]["binary_crosscheck"] = json!({
-                "what": "the same scenario through the in-process seams and through the find/xargs executables built from /repo with the hooks feature off (real pipes, real simchild children): exit status, child argv and cwd, output bytes, presence of diagnostics must be equal",
-                "scenarios_tried": tried, "compared": compared, "disagreements": disagreements.len(), "wall_s": wall,
+                "what": "the same scenario through the in-process seams and through the find/xargs executables built from /repo with the hooks feature off (real pipes, real simchild children; xargs' standard input is in turn a pipe, a regular file, a regular file whose offset is past bytes consumed earlier): exit status, child argv and cwd, output bytes must be equal (a difference is a violation), presence of diagnostics too (a difference is a harness error)",
+                "scenarios_tried": tried, "compared": compared, "disagreements": disagreements.len(), "differences": differences.len(), "wall_s": wall,
             });
             let _ = fs::write(&evp, serde_json::to_string_pretty(&v).unwrap());
         }
@@ -954,10 +999,48 @@ pub fn crosscheck_main<P: Property>(n: u64) -> i32 {
     if compared == 0 {
         println!("fusim: crosscheck: no comparable scenario for {}", P::ID);
     }
-    if disagreements.is_empty() {
-        0
-    } else {
+    if !differences.is_empty() {
+        1
+    } else if !disagreements.is_empty() {
         2
+    } else {
+        0
+    }
+}
+
+/// Replay of a file written by the cross-check: the scenario through both again.
+fn crosscheck_replay<P: Property>(sc: P::Sc, path: &str) -> i32 {
+    use crate::crosscheck::Xc;
+    let parent = make_scratch_parent();
+    let bins = match prepare_bins(&parent) {
+        Ok(b) => b,
+        Err(e) => {
+            println!("HARNESS-ERROR: {e}");
+            sys::wipe(&parent);
+            return 2;
+        }
+    };
+    let r = with_ctx::<P, _>(parent.clone(), "xc".into(), true, move |ctx| P::crosscheck(&sc, ctx, &bins));
+    sys::wipe(&parent);
+    match r {
+        Xc::Differs(d) => {
+            println!("replay: class={}.executable-differs", P::ID);
+            println!("  {d}");
+            println!("VIOLATION property={} replay={}", P::ID, path);
+            1
+        }
+        Xc::Disagree(d) => {
+            println!("HARNESS-ERROR: {d}");
+            2
+        }
+        Xc::Agree => {
+            println!("replay: no violation (in-process run and executables agree)");
+            0
+        }
+        Xc::NotComparable => {
+            println!("HARNESS-ERROR: the scenario in {path} is not comparable");
+            2
+        }
     }
 }
 
